@@ -39,7 +39,7 @@ ValWraps(x) ==
   \cup {Asg(Id("c"), x), Node("casg", "+=", <<Id("c"), x>>), Node("casg", "-=", <<B, x>>)}
   \cup {Call(Id("f"), <<x>>), Call(Id("f"), <<B, x>>), Node("idx", "", <<Arr(<<B, x>>), Num("1")>>),
         Arr(<<x, B>>), Obj(<<Id("k"), x>>), Grp(x), Node("idx", "", <<Id("o"), x>>)}
-  \cup (IF x.k \notin {"num"} THEN {Mem(x, "k"), Call(x, <<>>)} ELSE {})
+  \cup {Mem(x, "k"), Call(x, <<>>)}
 
 Lt(l, r) == Bin("<", l, r)
 I == Id("i")
